@@ -390,6 +390,13 @@ MUT_ALPHABET = list("()!&|~\"'\\ \t\nabq3x24u0") + ["~q", "~u ", "~c ", "~hq ", 
 
 
 MUT_NOPAREN = [x for x in MUT_ALPHABET if x != "("]
+PARSE_LIMIT = {"quick": 4.0, "thorough": 12.0}     # seconds per flowfilter.parse call, see Check._parse_limited
+
+
+class _ParseTooSlow(BaseException):
+    pass
+
+
 QUOTE_SOUP = ["\\", "\\\\", "x", "u", "0", "3", "2", "4", "a", "F", "g", "t", "n", "r", "f", "7", "\"", "'", " ", "\t", "\n", "\r", "é", "~", "("]
 
 
@@ -420,12 +427,12 @@ class Check(PropertyCheck):
                   "rendering theorem, not a general fuel-independence lemma, is proved; int() of more than 4300 digits (ValueError) "
                   "and lone surrogates are outside the generated domain; parenthesis nesting in generated cases is capped (2 quick / "
                   "3 thorough, and most cases have none) because pyparsing's infix_notation takes time exponential in it (~10 ms "
-                  "without, ~100 ms with one group, up to 1 s with two levels) - the theorems have no such cap.")
+                  "without, ~100 ms with one group, up to 1 s with two levels, minutes for some 3-level expressions of 200 characters; a generated case whose real parse exceeds 4 s quick / 12 s thorough is skipped) - the theorems have no such cap.")
     technique = "Lean 4 proof (mutual induction over concrete syntax) + regenerated operator tables + differential correspondence with flowfilter.parse"
     rule = ("trees over all operator codes (unary / regex+argument / int / naked regex) with Not/And/Or: 60% shaped along the "
             "precedence levels (writable without parentheses, up to 4-5 levels deep), 25% arbitrary nesting up to the tier depth "
             "(4 quick / 6 thorough), each rendered once with random layout under a per-case budget of parenthesised groups "
-            "(quick 80% none / 17% one / 3% two levels; thorough 50/30/15/5% up to three levels); thorough first enumerates every "
+            "(quick 80% none / 17% one / 3% two levels; thorough 50/30/16/4% up to three levels; a case whose real parse exceeds 4 s / 12 s is skipped); thorough first enumerates every "
             "tree of depth <=2 over 5 atoms (one per leaf kind) in canonical and random layout; 15% mutated renderings, raw token "
             "soups and quoted-escape soups for the model tie only. distinct = distinct text; non-trivial = not a bare unary code.")
     budget = {"quick": 1500, "thorough": 200000}
@@ -488,7 +495,7 @@ class Check(PropertyCheck):
             for c in self.exhaustive(tier): yield c
         # pyparsing needs ~10 ms for an expression without parentheses, ~100 ms with one group, 0.3-1 s with two levels
         GROUPS = {"quick": [(80, (0, 0)), (17, (1, 1)), (3, (2, 3))],
-                  "thorough": [(50, (0, 0)), (30, (1, 2)), (15, (2, 4)), (5, (3, 6))]}[tier]
+                  "thorough": [(50, (0, 0)), (30, (1, 2)), (16, (2, 3)), (4, (3, 4))]}[tier]
         while True:
             r = rng.random()
             gb = rng.weighted(GROUPS)
@@ -598,11 +605,31 @@ class Check(PropertyCheck):
                 if c: yield c
 
     # ---- implementation runner -----------------------------------------------------------------
+    def _parse_limited(self, s):
+        """flowfilter.parse under a wall-clock limit: pyparsing's infix_notation re-parses every operand at every
+        operator level, so a few nested groups can take minutes; such a case is skipped (it says nothing about the
+        grammar), never counted.  Re-arms the runner's own SIGALRM timer afterwards."""
+        import signal, time
+        if not hasattr(signal, "setitimer"): return ff.parse(s)
+        limit = PARSE_LIMIT[getattr(self, "tier", "quick")]
+        def on_alarm(signum, frame): raise _ParseTooSlow()
+        t0 = time.time()
+        old_handler = signal.signal(signal.SIGALRM, on_alarm)
+        old = signal.setitimer(signal.ITIMER_REAL, limit)
+        try:
+            return ff.parse(s)
+        except _ParseTooSlow:
+            raise Skip()
+        finally:
+            signal.setitimer(signal.ITIMER_REAL, 0)
+            signal.signal(signal.SIGALRM, old_handler)
+            if old[0] > 0: signal.setitimer(signal.ITIMER_REAL, max(0.01, old[0] - (time.time() - t0)))
+
     def impl(self, case):
         if self.pool is None: self.setup("quick")
         s = untx(case["s_hex"])
         try:
-            flt = ff.parse(s)
+            flt = self._parse_limited(s)
         except ValueError:
             self._last = (case["s_hex"], [])
             return {"shape": "reject", "v": None, "atoms": []}
